@@ -108,8 +108,13 @@ def one_case(cid, pkey, rng):
         except Exception:
             pass
         pc0 = int(prot.progeny_counter); fc0 = int(prot.family_counter)
+    xids = xconfig.tolist()                     # the designated taxa (what TLC validates against)
+    if rng.random() < 0.25:
+        # some parents are named by from-the-end indices (numpy meaning: -1 is the last taxon)
+        xconfig = np.array([[v - ntaxa if rng.random() < 0.5 else v for v in row] for row in xids], dtype="int64")
+    xarg0 = xconfig.copy()
     before = snapshot(pg)
-    c = {"id": cid, "kind": "call", "proto": pkey, "xconfig": xconfig.tolist(), "nm": nmv, "np": npv, "nself": nself, "xo": xcls,
+    c = {"id": cid, "kind": "call", "proto": pkey, "xconfig": xids, "nm": nmv, "np": npv, "nself": nself, "xo": xcls,
          "pc0": pc0, "fc0": fc0, "exc": None, "ntaxa": ntaxa,
          "nm_is_array": not isinstance(nm_arg, int), "np_is_array": not isinstance(np_arg, int), "warm": warm, "replan": replan}
     try:
@@ -136,7 +141,7 @@ def one_case(cid, pkey, rng):
         c["grp"] = [-1] * len(c["prog"])
     c["pc1"] = int(prot.progeny_counter); c["fc1"] = int(prot.family_counter)
     after = snapshot(pg)
-    c["parentsame"] = all(same(before[k], after[k]) for k in before) and (xconfig.tolist() == c["xconfig"])
+    c["parentsame"] = all(same(before[k], after[k]) for k in before) and np.array_equal(xconfig, xarg0)
     c["metasame"] = all(same(before[f], getattr(out, f)) for f in VFIELDS)
     return c
 
